@@ -775,7 +775,7 @@ def _data_hdr_tloc_names(fnode):
 def _mentions_tloc(e, names=()):
     for x in ast.walk(e):
         if isinstance(x, ast.Compare) and len(x.ops) == 1 and isinstance(
-                x.ops[0], ast.NotEq):
+                x.ops[0], (ast.NotEq, ast.Eq)):
             for side in (x.left, x.comparators[0]):
                 if (isinstance(side, ast.Attribute) and side.attr == 'tloc') \
                         or (isinstance(side, ast.Name) and side.id in names):
@@ -802,13 +802,23 @@ def r9(R):
                 continue
             n += 1
             R.instance('%s: if %s' % (f.short, ast.unparse(st.test)[:70]))
+            def refuses_(block):
+                if not block:
+                    return False
+                last_ = block[-1]
+                return isinstance(last_, ast.Raise) or (
+                    isinstance(last_, ast.Return) and isinstance(
+                        last_.value, ast.Constant) and
+                    not last_.value.value) or (
+                    isinstance(last_, ast.Expr) and isinstance(
+                        last_.value, ast.Call) and dotted(
+                            last_.value.func) and
+                    dotted(last_.value.func)[-1] in ('panic', 'fail',
+                                                     'error'))
+            # whichever way the test is written, one of its two blocks is
+            # the one for "does not fit", and it must refuse
             last = st.body[-1]
-            refuses = isinstance(last, ast.Raise) or (
-                isinstance(last, ast.Return) and isinstance(
-                    last.value, ast.Constant) and not last.value.value) or (
-                isinstance(last, ast.Expr) and isinstance(
-                    last.value, ast.Call) and dotted(last.value.func) and
-                dotted(last.value.func)[-1] in ('panic', 'fail', 'error'))
+            refuses = refuses_(st.body) or refuses_(st.orelse)
             if not refuses:
                 R.violation(
                     (f.module.relpath, f.qualname,
